@@ -211,6 +211,16 @@ def run(tier="quick", seed=0):
                 srv.shutdown()
                 srv.server_close()
                 th.join(5)
+    # History keeps every text, in order, however many there are
+    n += 1
+    hh = H.History()
+    for k in range(2500):
+        hh.add_request("rq%d" % k)
+        hh.add_response("rs%d" % k)
+    if hh.requests != ["rq%d" % k for k in range(2500)] or hh.responses != ["rs%d" % k for k in range(2500)] or \
+            hh.request != "rq2499" or hh.response != "rs2499":
+        fail("history_records_the_exchange", {"exchanges": 2500}, "History holds %d requests and %d responses, first %r" % (
+            len(hh.requests), len(hh.responses), hh.requests[:1]))
     shutil.rmtree(sockdir, ignore_errors=True)
     return {"kind": "real ServerProxy <-> real plain and pooled servers over loopback TCP and Unix sockets on a value corpus (bounded)",
             "bound": "%d values x {positional, keyword, dotted} on SimpleJSONRPCServer/2.0, every third value on the other three "
